@@ -72,6 +72,7 @@ pub fn plan(prop: &str, tier: &str) -> Plan {
         target,
         ..Default::default()
     };
+    judge.lenient_links = matches!(prop, "C06" | "C07" | "C08" | "C11");
     let core_q = vec![(2, 3), (3, 5), (4, 6), (3, 7)];
     let core_t = vec![(2, 3), (3, 5), (4, 6), (3, 8), (4, 8), (5, 6)];
     let bounds = match prop {
@@ -233,11 +234,15 @@ fn cmd_sweep(args: &[String]) -> i32 {
         if let Some(r) = deep::find_retirement(70_000) {
             let mut inits = Vec::new();
             for k in r.saturating_sub(2)..=r + 1 {
-                inits.push(Init::Seed(format!("seed(cycles={k},slots=1)"), deep::seed_state(k, 1)));
+                if let Ok(st) = ops::guarded(|| deep::seed_state(k, 1)) {
+                    inits.push(Init::Seed(format!("seed(cycles={k},slots=1)"), st));
+                }
             }
             // the same boundary on the second slot, with a live node in the first
             for k in r.saturating_sub(1)..=r + 1 {
-                inits.push(Init::Seed(format!("seed(cycles={k},slots=1,offset=1)"), deep::seed_state_at(k, 1, 1)));
+                if let Ok(st) = ops::guarded(|| deep::seed_state_at(k, 1, 1)) {
+                    inits.push(Init::Seed(format!("seed(cycles={k},slots=1,offset=1)"), st));
+                }
             }
             let (n, a) = (3, if tier == "quick" { 4 } else { 5 });
             let cfg = RunCfg {
@@ -762,9 +767,28 @@ fn cmd_deep(args: &[String]) -> i32 {
         "[{prop} {tier}] deep run: {} cycles, {} is_removed checks, retirements {:?}, {} failure kinds, {:.1}s",
         deep.cycles_done, deep.is_removed_checks, deep.retirements, deep.failures.len(), t0.elapsed().as_secs_f64()
     );
+    // the same with two slots cycled together (two exhausted slots next to each other in the free list)
+    let batch_cycles = if q { 33_000 } else { 66_000 };
+    let batch: Vec<deep::DeepResult> = pool.install(|| {
+        use rayon::prelude::*;
+        (0..stripes).into_par_iter().map(|t| deep::run_batch_stripe(batch_cycles, 2, t, stripes)).collect()
+    });
+    let batch_checks: u64 = batch.iter().map(|b| b.is_removed_checks).sum();
+    let mut batch_fail: Vec<(usize, Failure)> = Vec::new();
+    for b in &batch {
+        for f in &b.failures {
+            if !batch_fail.iter().any(|g| g.1.sig == f.1.sig) {
+                batch_fail.push(f.clone());
+            }
+        }
+    }
+    eprintln!("[{prop} {tier}] deep run with two slots cycled together: {batch_cycles} cycles, {batch_checks} is_removed checks, {} failure kinds, {:.1}s",
+        batch_fail.len(), t0.elapsed().as_secs_f64());
+    let mut all_deep_failures: Vec<(usize, Failure)> = deep.failures.clone();
+    all_deep_failures.extend(batch_fail);
     let mut unknown = 0usize;
     let mut deep_viol = Vec::new();
-    for (c, f) in &deep.failures {
+    for (c, f) in &all_deep_failures {
         if f.props & target == 0 {
             continue;
         }
@@ -789,6 +813,7 @@ fn cmd_deep(args: &[String]) -> i32 {
     }
     // ---- boundary windows ------------------------------------------------------------
     let mut reports: Vec<Report> = Vec::new();
+    let mut seed_panics: Vec<String> = Vec::new();
     let mut window_labels = Vec::new();
     let mut idh = json!(null);
     let (mut idh_steps, mut idh_paths) = (0u64, 0u64);
@@ -804,7 +829,10 @@ fn cmd_deep(args: &[String]) -> i32 {
                 for k in r.saturating_sub(3)..=r + 1 {
                     let label = format!("seed(cycles={k},slots={slots})");
                     window_labels.push(label.clone());
-                    inits.push(Init::Seed(label, deep::seed_state(k, slots)));
+                    match ops::guarded(|| deep::seed_state(k, slots)) {
+                        Ok(st) => inits.push(Init::Seed(label, st)),
+                        Err(e) => seed_panics.push(format!("{label}: {e}")),
+                    }
                 }
                 let (n, a) = if slots == 1 { (3, if q { 5 } else { 6 }) } else { (4, 5) };
                 let cfg = RunCfg {
@@ -844,9 +872,11 @@ fn cmd_deep(args: &[String]) -> i32 {
                 }
                 let results: Vec<(usize, usize, deep::IdDfsStats, Option<(Vec<String>, Failure)>)> = pool.install(|| {
                     seeds.par_iter().map(|&(k, slots)| {
-                        let st = deep::seed_state(k, slots);
                         let mut stats = deep::IdDfsStats { paths: 0, steps: 0, is_removed_checks: 0, panics: 0 };
-                        let r = deep::id_history_dfs(&st, depth, max_live, &mut stats);
+                        let r = match ops::guarded(|| deep::seed_state(k, slots)) {
+                            Ok(st) => deep::id_history_dfs(&st, depth, max_live, &mut stats),
+                            Err(_) => { stats.panics += 1; None }
+                        };
                         (k, slots, stats, r)
                     }).collect()
                 });
@@ -911,6 +941,8 @@ fn cmd_deep(args: &[String]) -> i32 {
                 "last_ids": deep.ids.iter().rev().take(3).map(|i| obs::fmt_id(Some(*i))).collect::<Vec<_>>(),
             },
             "boundary_windows": window_labels,
+            "seeds_whose_preparation_panicked": seed_panics,
+            "deep_run_two_slots": {"cycles": batch_cycles, "is_removed_evaluations": batch_checks},
             "id_history_dfs": idh,
         });
         let mut ev = evidence_json(&prop, &tier, &reports, unknown, extra, vec![
